@@ -32,7 +32,7 @@ ASSUMPTIONS = [
     "padding bits at the end of each output row are 0 in both polarities (what the decoder produces today; ISO leaves them unspecified)",
     "under EncodedByteAlign the EOFB is omitted or starts on a byte boundary (DESIGN.md narrowing)",
     "without EOFB the data ends after the last row plus zero fill to the byte boundary (DecodeParms then carries /EndOfBlock false and /Rows)",
-    "/Columns and /K -1 are always present in DecodeParms (omitting /Columns for width 1728 is outside the statement; see notes)",
+    "/K -1 is always present in DecodeParms; /Columns is present except for about half of the images of width 1728, its default (ISO 32000-1 Table 11)",
     "harness code tables pinned to their hand-verified state (ccittenc.TABLES_PIN); a library/harness table disagreement is "
     "printed as a note and decode failures are triaged with the harness's own textbook decoder before being reported",
 ]
@@ -55,8 +55,10 @@ def exhaustive(tier):
 def _decode_direct(case):
     from pdfminer.ccitt import ccittfaxdecode
 
-    return ccittfaxdecode(case["data"], {"K": -1, "Columns": case["w"], "EncodedByteAlign": case["align"],
-                                         "BlackIs1": case["black1"]})
+    params = {"K": -1, "Columns": case["w"], "EncodedByteAlign": case["align"], "BlackIs1": case["black1"]}
+    if case["w"] == 1728 and case.get("omit_columns"):
+        del params["Columns"]  # ISO 32000-1 Table 11: default value 1728
+    return ccittfaxdecode(case["data"], params)
 
 
 def _decode_doc(case):
@@ -124,9 +126,9 @@ def run_case(case):
 
 
 # ---------------------------------------------------------------------------------------------------------
-def build_doc(data, w, h, align, black1, eofb, rnd):
+def build_doc(data, w, h, align, black1, eofb, rnd, omit_columns=False):
     """A harness-written file whose object 5 is an image XObject with /Filter /CCITTFaxDecode."""
-    items = [(b"K", -1), (b"Columns", w)]
+    items = [(b"K", -1)] + ([] if omit_columns and w == 1728 else [(b"Columns", w)])
     if align or rnd.random() < 0.3:
         items.append((b"EncodedByteAlign", bool(align)))
     if black1 or rnd.random() < 0.3:
@@ -197,8 +199,12 @@ def make_case(rows, w, choose, align, black1, eofb, doc_rnd=None, desc=None, pre
               "steps": stt.steps, "nonstd_choices": stt.nonstd})
     case = {"w": w, "h": h, "align": bool(align), "black1": bool(black1), "eofb": bool(eofb), "data": data,
             "expect": E.pack_rows(rows, w, black1), "pdf": None, "objid": 5, "cls": cls, "nt": nt, "desc": d}
+    if w == 1728 and (len(data) + h) % 2 == 0:
+        # the default of /Columns (a pure function of the case, so that replays agree)
+        case["omit_columns"] = True
+        cls.append("columns-omitted-1728")
     if doc_rnd is not None:
-        case["pdf"], form = build_doc(data, w, h, align, black1, eofb, doc_rnd)
+        case["pdf"], form = build_doc(data, w, h, align, black1, eofb, doc_rnd, omit_columns=case.get("omit_columns"))
         d["doc"] = form
         cls.append("doc:" + form)
     return case
